@@ -10,8 +10,8 @@ ID = 'C05'
 RULE = ('cases: a multiplier-free grammar AST (C04 generator) decorated with |n on nodes (first node, inside '
         'branches, before a bond symbol, annotated) and on branch units anchor+branch (n in 1,2,3,4,12; optional '
         'bond symbol between copies and after the last copy; unit contents: bond orders, annotations, nested '
-        'branches, node multipliers, nested unit multipliers, rings closed inside the unit); 3 %: one polymer-sized '
-        'multiplier (100-1000) on a node or a small unit; plus an exhaustive '
+        'branches, node multipliers, nested unit multipliers, rings closed inside the unit); about 2 %: one polymer-sized '
+        'multiplier (100-250) on a node or a small unit; plus an exhaustive '
         'enumeration of small units. Oracle: read(shorthand) isomorphic (names, all annotation attributes, orders) '
         'to read(longhand written out on the AST); longhand equals the reference interpreter exactly; node-only '
         'multipliers additionally give identical numbering; annotation-free strings are also read as the body of a '
@@ -44,7 +44,7 @@ def make_case(ast, extra_feats=()):
 
 
 def gen(R, tier):
-    if R.chance(0.03):
+    if R.chance(0.012):
         return make_case(gram.gen_big_mult_ast(R), {'three_or_four_digit_multiplier'})
     lo, hi = R.choice([(1, 3), (2, 6), (4, 10)])
     style = R.choice(['nodes', 'units', 'units', 'mixed', 'annotated', 'ringy'])
